@@ -454,6 +454,7 @@ type State struct {
 	ctl     Ctl
 	label   string
 	results []Val
+	retPos  token.Pos // position of the return statement this path left the function through
 	// write log (for loop havoc discovery)
 	log *WriteLog
 	// allocation watermark (Int term): references allocated so far are in (0, alloc)
@@ -504,7 +505,7 @@ func (l *WriteLog) note(loc Loc) {
 }
 
 func (st *State) fork() *State {
-	n := &State{vals: make(map[*Cell]Val, len(st.vals)), heaps: make(map[string]*Term, len(st.heaps)), ctl: st.ctl, label: st.label, results: st.results, log: st.log, alloc: st.alloc}
+	n := &State{vals: make(map[*Cell]Val, len(st.vals)), heaps: make(map[string]*Term, len(st.heaps)), ctl: st.ctl, label: st.label, results: st.results, log: st.log, alloc: st.alloc, retPos: st.retPos}
 	for k, v := range st.vals {
 		n.vals[k] = v
 	}
@@ -586,6 +587,10 @@ func guardedPtrAxiom(key string) bool {
 	if os.Getenv("GOVC_NOGUARD") != "" {
 		return false
 	}
+	return true
+}
+
+func guardedPtrAxiomOld(key string) bool {
 	for t := range symbolicTypes {
 		if strings.Contains(key, t) {
 			return true
@@ -641,10 +646,10 @@ func (e *Engine) objSliceAxiom(prefix string) {
 	if e.IntIdx() {
 		z := c.Inti(0)
 		lim := c.Inti(1 << maxLenBits)
-		body = c.And(c.ILe(at(ref), z), c.ILe(z, at(off)), c.ILe(at(off), lim), c.ILe(z, at(ln)), c.ILe(at(ln), at(cp)), c.ILe(at(cp), lim))
+		body = c.And(c.Implies(c.ILe(r, c.Inti(0)), c.ILe(at(ref), z)), c.ILe(z, at(off)), c.ILe(at(off), lim), c.ILe(z, at(ln)), c.ILe(at(ln), at(cp)), c.ILe(at(cp), lim))
 	} else {
 		lim := c.BVu(1<<maxLenBits, 64)
-		body = c.And(c.ILe(at(ref), c.Inti(0)), c.BVUle(at(off), lim), c.BVUle(at(ln), at(cp)), c.BVUle(at(cp), lim))
+		body = c.And(c.Implies(c.ILe(r, c.Inti(0)), c.ILe(at(ref), c.Inti(0))), c.BVUle(at(off), lim), c.BVUle(at(ln), at(cp)), c.BVUle(at(cp), lim))
 	}
 	c.Axioms = append(c.Axioms, c.Forall([]*Term{r}, body))
 }
@@ -666,10 +671,10 @@ func (e *Engine) sliceHeapAxiom(prefix string) {
 	if e.IntIdx() {
 		z := c.Inti(0)
 		lim := c.Inti(1 << maxLenBits)
-		body = c.And(c.ILe(at(ref), z), c.ILe(z, at(off)), c.ILe(at(off), lim), c.ILe(z, at(ln)), c.ILe(at(ln), at(cp)), c.ILe(at(cp), lim))
+		body = c.And(c.Implies(c.ILe(r, c.Inti(0)), c.ILe(at(ref), z)), c.ILe(z, at(off)), c.ILe(at(off), lim), c.ILe(z, at(ln)), c.ILe(at(ln), at(cp)), c.ILe(at(cp), lim))
 	} else {
 		lim := c.BVu(1<<maxLenBits, 64)
-		body = c.And(c.ILe(at(ref), c.Inti(0)), c.BVUle(at(off), lim), c.BVUle(at(ln), at(cp)), c.BVUle(at(cp), lim))
+		body = c.And(c.Implies(c.ILe(r, c.Inti(0)), c.ILe(at(ref), c.Inti(0))), c.BVUle(at(off), lim), c.BVUle(at(ln), at(cp)), c.BVUle(at(cp), lim))
 	}
 	c.Axioms = append(c.Axioms, c.Forall([]*Term{r, j}, body))
 }
